@@ -347,7 +347,7 @@ def c10_4(ctx):
 def c10_state(ctx):
     """Per-statement / per-lookup properties presuppose that nothing is remembered between statements beyond the reviewed state."""
     from rules.shared import state_discipline
-    state_discipline(ctx, ('bespokeasm.assembler.bytecode', 'bespokeasm.assembler.model.instruction_macro', 'bespokeasm.assembler.model.instruction_parser', 'bespokeasm.assembler.model.operand', 'bespokeasm.assembler.model.instruction_set'))
+    state_discipline(ctx, ('bespokeasm.expression', 'bespokeasm.assembler.bytecode', 'bespokeasm.assembler.model.instruction_macro', 'bespokeasm.assembler.model.instruction_parser', 'bespokeasm.assembler.model.operand', 'bespokeasm.assembler.model.instruction_set'))
 
 
 def c10_parts(ctx):
@@ -355,7 +355,14 @@ def c10_parts(ctx):
     from rules.c01 import c01_3
     c01_3(ctx)
 
-RULES = [c10_1, c10_2, c10_3, c10_variants, c10_4, c10_state, c10_parts]
+def c10_sizes(ctx):
+    """A macro "occupies exactly that many bytes": every step reserves what it emits (C01.4 size gate, C01.6 size arithmetic)."""
+    from rules.c01 import c01_4, c01_6
+    c01_4(ctx)
+    c01_6(ctx)
+
+
+RULES = [c10_1, c10_2, c10_3, c10_variants, c10_4, c10_state, c10_parts, c10_sizes]
 
 _A = 'assembler/bytecode/assembled.py'
 _M = 'assembler/bytecode/generator/macro.py'
@@ -385,7 +392,7 @@ MUTANTS = [
                                 f'but no operand argument exist. Consider using @OP{step_num} instead.'
                             )
 ''', '', 'C10.2'),
-    V('c10-steps-reversed', _M, "composite_instruction = CompositeAssembledInstruction(line_id, assembled_instructions)", "composite_instruction = CompositeAssembledInstruction(line_id, assembled_instructions[::-1])", 'C10.3'),
+    V('c10-steps-reversed', _M, "composite_instruction = CompositeAssembledInstruction(line_id, assembled_instructions, operand_parts)", "composite_instruction = CompositeAssembledInstruction(line_id, assembled_instructions[::-1], operand_parts)", 'C10.3'),
     V('c10-macro-collision', 'assembler/model/instruction_set.py', "                if mnemonic in self:\n                    sys.exit(f'ERROR - Macro \"{mnemonic}\" has same mnemonic as a configured instruction.')\n", "", 'C10.4'),
     V('c10-arg-accessor-raw', 'assembler/model/operand/__init__.py', "        return self.argument.instruction_string", "        return self._operand_str", 'C10.2'),
     V('c10-registers-dropped', _M, "                line_id, operand_list, isa_model.registers, memzone_manager,\n            )\n            if matched_operands is None:\n                return None\n        elif", "                line_id, operand_list, set(), memzone_manager,\n            )\n            if matched_operands is None:\n                return None\n        elif", 'C10.3'),
